@@ -3,5 +3,7 @@ EXTENDS ClientPool
 \* three callers, two endpoints: t1,t2 -> k1 ; t3 -> k2   (and a one-key variant)
 KeyOf2 == [t \in Tasks |-> IF t = "t3" THEN "k2" ELSE "k1"]
 KeyOf1 == [t \in Tasks |-> "k1"]
+\* five callers: t1 holds k1, t2 waits for k1; t3 creates (and fails) k2, t4 and t5 wait for k2
+KeyOf5 == [t \in Tasks |-> IF t \in {"t3", "t4", "t5"} THEN "k2" ELSE "k1"]
 KeyOf4 == [t \in Tasks |-> IF t \in {"t3", "t4"} THEN "k2" ELSE "k1"]
 =============================================================================
